@@ -42,7 +42,8 @@ func ver(i int) kmip.ProtocolVersion {
 	if i >= 10 {
 		return kmip.ProtocolVersion{ProtocolVersionMajor: int32(i / 10), ProtocolVersionMinor: int32(i % 10)}
 	}
-	return kmip.ProtocolVersion{ProtocolVersionMajor: 1, ProtocolVersionMinor: int32(i)}
+	// the library's exported version values, read when they are used - as an application writes them (kmip.V1_1, ...)
+	return *[]*kmip.ProtocolVersion{&kmip.V1_0, &kmip.V1_1, &kmip.V1_2, &kmip.V1_3, &kmip.V1_4}[i]
 }
 func idx(v kmip.ProtocolVersion) int {
 	if v.ProtocolVersionMajor != 1 {
